@@ -137,12 +137,22 @@ theorem runNewInstance_outcomes :
     runNewInstance.map (fun p => (p.failed, p.has (.dfr "Close"), (p.after (.dfr "Close")).contains (.call "Run"))) =
       [(some "newInstance", false, false), (none, true, true)] := by decide
 
+def goEvents (p : Path) : List String := p.filterMap fun e => match e with | .go t => some t | _ => none
+def callEvents (p : Path) : List String := p.filterMap fun e => match e with | .call t => some t | _ => none
+
 def startEvents (p : Path) : List Ev := p.filter fun e => match e with | .go _ => true | .fail _ => true | _ => false
 
 theorem startInstances_outcomes :
     startInstances.map startEvents =
       [[], [.fail "newInstance"], [.go "Close", .go "Run", .go "send:‹arg3›"],
        [.go "Close", .go "Run", .go "send:‹arg3›", .go "runNewInstance", .go "send:‹arg3›"]] := by decide
+
+/-- the start goroutine waits for its startup schedule on the instance-start context (`‹arg0›`, its first parameter)
+— both waits — and reports the error of that context: cancelling the instance start (out of ammo, end of the shared
+schedule) ends it, and its result is judged against the context it really ended by -/
+theorem startInstances_start_ctx :
+    startInstances.all (fun p => (callEvents p).all fun c => c == "Wait(‹arg0›)" || c == "Err(‹arg0›)" || c == "newInstance") = true ∧
+    startInstances.map (fun p => p.count (.call "Wait(‹arg0›)")) = [1, 1, 2, 2] := by decide
 
 theorem instanceClose_closes_gun : instanceClose.all (fun p => p.has (.call "closeGun")) = true := by decide
 
@@ -306,8 +316,6 @@ theorem checkAll_src (s : State) :
 
 /-! ### `runAsync`: the context tree and what is started -/
 
-def goEvents (p : Path) : List String := p.filterMap fun e => match e with | .go t => some t | _ => none
-def callEvents (p : Path) : List String := p.filterMap fun e => match e with | .call t => some t | _ => none
 
 /-- the same elements, in any order -/
 def sameElems (a b : List String) : Bool := a.length == b.length && a.all b.contains && b.all a.contains
